@@ -349,6 +349,14 @@ def queue_fns(t):
         fns.append(fn if isinstance(fn, int) else -1)
     return "/".join("N" if f < 0 else str(f) for f in sorted(fns)) or "-"
 
+def grp(prefix, f):
+    """one group of the state dump; `prefix?` when this tree keeps the values somewhere else (the group is then not observed
+    here: lib/worldcheck.py masks it on the model's side too, the behaviour it drives is still compared)"""
+    try:
+        return prefix + f()
+    except AttributeError:
+        return prefix + "?"
+
 def state(app):
     parts = []
     trxs = app.trx_list.trx_list
@@ -357,13 +365,14 @@ def state(app):
         q = queue_fns(t)
         parts.append(" ".join([
             "R%d" % int(t.running), fmt_opt(named_attr(t, "_rx_freq", "rx_freq")), fmt_opt(named_attr(t, "_tx_freq", "tx_freq")), fh,
-            "v%d" % named_attr(t.data_if, "_hdr_ver", "hdr_ver"), "m%d" % int(t.rf_muted), "ta%s" % t.ta,
-            "p%s/%s" % (t.tx_power_base, t.tx_att_base),
-            "toa%s/%s" % (t.toa256_base, t.toa256_rand_threshold),
-            "rssi%s/%s/%d" % (t.rssi_base, t.rssi_rand_threshold, int(t.fake_rssi_enabled)),
-            "ci%s/%s" % (t.ci_base, t.ci_rand_threshold),
-            "drop%s/%s" % (t.burst_drop_amount, t.burst_drop_period),
-            "dly%s" % t.ctrl_if.rsp_delay_ms, "q" + q]))
+            "v%d" % named_attr(t.data_if, "_hdr_ver", "hdr_ver"),
+            grp("m", lambda: "%d" % int(t.rf_muted)), grp("ta", lambda: "%s" % t.ta),
+            grp("p", lambda: "%s/%s" % (t.tx_power_base, t.tx_att_base)),
+            grp("toa", lambda: "%s/%s" % (t.toa256_base, t.toa256_rand_threshold)),
+            grp("rssi", lambda: "%s/%s/%d" % (t.rssi_base, t.rssi_rand_threshold, int(t.fake_rssi_enabled))),
+            grp("ci", lambda: "%s/%s" % (t.ci_base, t.ci_rand_threshold)),
+            grp("drop", lambda: "%s/%s" % (t.burst_drop_amount, t.burst_drop_period)),
+            grp("dly", lambda: "%s" % t.ctrl_if.rsp_delay_ms), "q" + q]))
     links = []
     for l in app.clck_gen.clck_links:
         idx = [i for i, t in enumerate(trxs) if getattr(t, "clck_if", None) is l]
